@@ -22,15 +22,6 @@ Lenient(r) ==
     (IF OddPaths(r.s0) THEN {"OddPath"} ELSE {})
     \cup (IF SubIgnored(r.s0, sub, Accepted(r.s0, <<>>)) \/ SubIgnored(s1, sub, acc) THEN {"SubIgnored"} ELSE {})
     \cup (IF \E n \in NodeSet(s1) : n.k \in {"other", "dangling"} THEN {"SpecialFile"} ELSE {})
-    \* a file that is not a Manifest occupies a name that a re-compressed Manifest of the same directory
-    \* would have to take (e.g. garbage `d/Manifest` next to a registered `d/Manifest.lzma`)
-    \cup (IF \E x \in MfSet(r.s0) : \E y \in MfSet(r.s0) : x.p # y.p /\ x.lp = y.lp /\ (~x.ok \/ ~x.reg) /\ y.reg
-          THEN {"ManifestNameCollision"} ELSE {})
-    \* ... likewise a garbage file with a Manifest name where the update adopts, creates or renames a
-    \* Manifest of that logical name (new package Manifest of a profile, adopted `Manifest.bz2` being
-    \* decompressed over a garbage `Manifest`): the rename overwrites the garbage file
-    \cup (IF \E x \in MfSet(r.s0) : ~x.ok /\ \E y \in MfSet(r.s0) \cup MfSet(r.s1) : y.ok /\ y.lp = x.lp
-          THEN {"ManifestNameCollision"} ELSE {})
     \* one physical Manifest file under two logical names (it lies in a directory that is also reached
     \* through a symlink): two loaded Manifests write one file, a Manifest created under one name appears
     \* as a stray under the other.  Flag computed by the harness from realpath.
@@ -63,8 +54,11 @@ C10(r) ==
             \cup (IF r.ev.opts.profile = "default" /\ ~(IgnoreSet(s1) \subseteq IgnoreSet(s0))
                   THEN {"C10.IgnoreAdded"} ELSE {})
             \cup (IF ~r.ev.opts.ts /\ TsSet(s0) # TsSet(s1) THEN {"C10.TimestampChanged"} ELSE {})
+            \* (a file that is a Manifest of the tree afterwards may be - has to be - referenced as MANIFEST
+            \* even if it was listed as a plain file before)
             \cup (IF \E f \in FilePaths(s0) \cap FilePaths(s1) :
-                        ~(TagsOf(s1, f) \subseteq TagsOf(s0, f))
+                        ~(TagsOf(s1, f) \subseteq TagsOf(s0, f) \cup
+                            (IF \E mm \in MfSet(s1) : mm.p = f /\ mm.ok THEN {"MANIFEST"} ELSE {}))
                   THEN {"C10.TagChanged"} ELSE {})
             \cup (IF OutsideSetA(s0, sub, Aliases(r), r.ev.opts.force) # OutsideSetA(s1, sub, Aliases(r), r.ev.opts.force) THEN {"C10.OutsideChanged"} ELSE {})
           ELSE {})
@@ -79,11 +73,21 @@ C13(r) ==
         W  == SeqSet(r.written)
         wr == { m \in MfSet(s1) : m.p \in W /\ m.ok }
         \* earlier incarnations of the logical Manifest: files that parse as Manifests
-        before(m) == { x \in MfSet(s0) : x.ok /\ x.lp = m.lp }
+        \* (the file of the same name if there was one - two Manifests of one logical name may coexist -
+        \* otherwise whatever had the logical name)
+        before(m) == IF \E x \in MfSet(s0) : x.ok /\ x.p = m.p
+                     THEN { x \in MfSet(s0) : x.ok /\ x.p = m.p }
+                     ELSE { x \in MfSet(s0) : x.ok /\ x.lp = m.lp }
     IN IF r.ev.end # "ok" \/ wm < 0 THEN {}
        ELSE
+       \* (a Manifest is never renamed onto a file that exists - another Manifest of the directory, also one
+       \* that took the name earlier in the same save, or any file that happens to have the name: it then
+       \* keeps its form)
        (IF \E m \in wr : m.p # s1.top /\ r.ev.opts.profile # "old-ebuild"
                 /\ ((m.comp # "plain") # (m.usize >= wm))
+                /\ ~(IF m.comp = "plain"
+                     THEN \E n \in NodeSet(s0) \cup NodeSet(s1) : n.lp = m.lp /\ n.comp = r.ev.opts.fmt /\ n.p # m.p
+                     ELSE \E n \in NodeSet(s0) \cup NodeSet(s1) : n.p = m.lp /\ n.p # m.p)
         THEN {"C13.WrongCompression"} ELSE {})
        \cup (IF \E m \in wr : \E x \in before(m) :
                    x.comp # "plain" /\ m.comp # "plain" /\ x.comp # m.comp
@@ -103,7 +107,7 @@ C13(r) ==
              THEN {"C13.LogicalManifestLost"} ELSE {})
        \cup (IF \E m \in wr : \E n \in MfSet(s1) :
                    /\ n.ok /\ n.p # m.p /\ n.lp = m.lp
-                   /\ Cardinality(before(m)) < 2
+                   /\ Cardinality({ x \in MfSet(s0) : x.ok /\ x.lp = m.lp }) < 2
              THEN {"C13.Leftover"} ELSE {})
 
 (* group records: one tree, several variants (walk order / old entry order   *)
